@@ -8,7 +8,11 @@ mkdir -p .bin .work
 # the harness module resolves github.com/tyler-sommer/stick through "replace => /repo",
 # so this rebuild always compiles /repo's current working tree (build tag "verif": no hooks needed).
 cp /repo/go.sum ./go.sum 2>/dev/null
-go build -tags verif -o .bin/vcheck ./cmd/vcheck || { echo "build failed"; exit 2; }
+# Lock, once, map and atomic operations of the library become scheduling points of the cooperative scheduler:
+# files of /repo that import sync or sync/atomic are compiled from a copy whose import is redirected to the
+# shims in verif/vsync (go build -overlay; /repo is untouched; no such file on the pinned tree).
+python3 tools/mkoverlay.py /repo .work/overlay >/dev/null || { echo "overlay generation failed"; exit 2; }
+go build -tags verif -overlay .work/overlay/overlay.json -o .bin/vcheck ./cmd/vcheck || { echo "build failed"; exit 2; }
 if [ "${1:-}" = "replay" ]; then
   exec .bin/vcheck replay "$2"
 fi
